@@ -221,7 +221,7 @@ func (e *Env) Notifications() []Notification {
 // NewSupi returns a subscriber identity unique to this process and call.
 func (e *Env) NewSupi() string {
 	n := e.supiSeq.Add(1)
-	s := fmt.Sprintf("imsi-9%05d%08d", os.Getpid()%100000, n)
+	s := fmt.Sprintf("imsi-9%05d%06d", os.Getpid()%100000, n)
 	e.Track(s)
 	return s
 }
